@@ -10,6 +10,7 @@ import (
 	"fmt"
 	"os"
 	"path/filepath"
+	"reflect"
 	"regexp"
 	"runtime"
 	"strings"
@@ -62,8 +63,23 @@ func parkedListeners() map[string]string {
 	return out
 }
 
+// listeners counts the functions registered on a setting's change event (a read-only look at the length
+// of the event's subscriber list; -1 if the list is not where the harness expects it).
+func listeners(prop any) (n int) {
+	defer func() {
+		if recover() != nil {
+			n = -1
+		}
+	}()
+	return reflect.ValueOf(prop).Elem().FieldByName("onChange").FieldByName("subscribers").Len()
+}
+
+func listenerCounts(cfg *config.Config) [3]int {
+	return [3]int{listeners(&cfg.Cache.CleanupInterval), listeners(&cfg.Cache.MaxCacheSize), listeners(&cfg.Cache.Memory.MemoryBudgetPercent)}
+}
+
 var subShutdown = ev.Register("shutdown-silences-listeners",
-	"a cache (memory/file) with its own context next to a surviving cache on the same configuration is shut down in one of the orders Destroy / cancel the context then Destroy / Destroy then cancel; then 2-5 accepted changes of cleanup_interval, max_cache_size and memory_budget_percent follow, spaced 30 ms; oracle: after quiescence no notifier goroutine (started by Event.Fire) stays parked inside a cache listener across two goroutine dumps 600 ms apart - a notification to a component that is gone has nobody to take it; Destroy does not panic or hang; non-trivial = at least two changes of the same setting after the shut-down; distinct by (backend, order, changes)",
+	"a cache (memory/file) with its own context next to a surviving cache on the same configuration is shut down in one of the orders Destroy / cancel the context then Destroy / Destroy then cancel; then 2-5 accepted changes of cleanup_interval, max_cache_size and memory_budget_percent follow, spaced 30 ms; oracle: after quiescence the three settings have exactly the surviving cache's listeners registered (length of each change event's subscriber list, read by reflection) and no notifier goroutine (started by Event.Fire) stays parked inside a cache listener across two goroutine dumps 600 ms apart - a notification to a component that is gone has nobody to take it; Destroy does not panic or hang; non-trivial = at least two changes of the same setting after the shut-down; distinct by (backend, order, changes)",
 	func(c Shutdown, o *ev.Obs) *ev.Failure {
 		dir, err := os.MkdirTemp("", "verif-c19s-")
 		if err != nil {
@@ -88,9 +104,14 @@ var subShutdown = ev.Register("shutdown-silences-listeners",
 		defer scancel()
 		survivor := mk(0, sctx)
 		defer survivor.Destroy()
+		time.Sleep(5 * time.Millisecond)
+		alone := listenerCounts(cfg) // the survivor's listeners only
 		vctx, vcancel := context.WithCancel(context.Background())
 		defer vcancel()
 		victim := mk(1, vctx)
+		if both := listenerCounts(cfg); both == alone || both[0] < 0 || both[1] < 0 || both[2] < 0 {
+			return ev.Failf("comp.harness", "listener counts unreadable or unchanged by a second cache: %v -> %v", alone, both)
+		}
 		time.Sleep(5 * time.Millisecond)
 		gap := time.Duration(c.GapMs) * time.Millisecond
 		done := make(chan any, 1)
@@ -144,6 +165,11 @@ var subShutdown = ev.Register("shutdown-silences-listeners",
 		o.Class("order:" + c.Order)
 		o.Class("backend:" + c.Backend)
 		time.Sleep(300 * time.Millisecond)
+		// whoever is still registered on a setting is notified of its next change: after the shut-down only the
+		// survivor's listeners may be left
+		if left := listenerCounts(cfg); left != alone {
+			return ev.Failf("event.still-subscribed-after-shutdown:"+c.Backend, "%s cache shut down by %q: listeners on (cleanup_interval, max_cache_size, memory_budget_percent) are %v, the surviving cache alone has %v - the component that is gone is still notified of every change of that setting", c.Backend, c.Order, left, alone)
+		}
 		first := parkedListeners()
 		if len(first) == 0 {
 			return nil
